@@ -1447,11 +1447,14 @@ impl Gen {
                 WFrame::Ping { ack: self.rng.chance(1, 2), payload: p }
             }
             10 => {
+                // nobody checks a GOAWAY against the peer's limit (debug data are short static strings in
+                // h2): stay within the encoder's precondition 8 + debug <= max
                 let n = match self.rng.below(6) {
                     0 => 0,
                     1 => self.rng.range(1000, 3000) as usize,
                     _ => self.rng.range(0, 40) as usize,
                 };
+                let n = n.min(max.saturating_sub(8));
                 WFrame::GoAway {
                     last: self.rng.range(0, 0x7fff_ffff) as u32,
                     code: self.rng.below(14) as u32,
